@@ -37,6 +37,10 @@ LEAVES = {
     "pvacR": {"vac": [("D2", "D4")]},
     "pleave": {"gl": [("holiday", "D3", None)]},
     "booking": {"res": [{"k": "booking", "a": "D1-09:00", "b": "+6h"}]},
+    # time off that begins on a slot boundary and ENDS inside a slot (the slot it ends in starts inside the leave)
+    "bookmid": {"res": [{"k": "booking", "a": "D1-09:00", "b": "+90min"}]},
+    "rleavemid": {"res": [{"k": "leaves", "type": "sick", "a": "D1-13:00", "b": "D1-14:40"}]},
+    "pvacmid": {"vac": [("D2-09:00", "D2-10:20")]},
     "span-start": {"res": [{"k": "leaves", "type": "annual", "a": "B5", "b": "D2"}]},      # begins 5 days before the project start
     "pspan-start": {"gl": [("holiday", "B3", "D1")]},
 }
